@@ -30,13 +30,13 @@ m = {
     "version": 1,
     "setup_cmd": "./check setup",
     "hooks": {"guard": "verif", "enable": "no source hooks in /repo: checks build the working tree with -tags verif through go's -overlay (instrumented copies of hysteria sources, in-package harness files) and a generated -modfile; nothing under /repo is edited",
-              "baseline_off_cmd": "for m in app core extras; do (cd /repo/$m && go test -mod=mod -vet=off -count=1 -timeout 25m ./...); done",
+              "baseline_off_cmd": "for m in app core extras; do (cd /repo/$m && go test -vet=off -count=1 -timeout 25m ./...); done",
               "source_commits": [], "add_only": True},
     "engines": [{"name": "hysim", "path": "hysim/", "serves_properties": [c["property_id"] for c in checks],
                  "kind_free_text": "deterministic simulator: synctest bubble (virtual clock), runtime overlay seeding scheduler randomness, AST instrumenter inserting seeded yield/stall points and replacing sync.Mutex by durable channel locks, simulated UDP fabric / byte streams / listeners, seeded workload+fault scripts, ddmin minimiser, replay files"}],
     "checks": checks,
     "not_applicable": na,
-    "notes": "All checks go through ./check (python3 driver). Exit 0 held / 1 VIOLATION / 2 cannot decide. See DESIGN.md.",
+    "notes": "All checks go through ./check (python3 driver). Exit 0 held / 1 VIOLATION / 2 cannot decide. No file under /repo carries hooks: the guard tag verif only selects harness files that are overlaid at build time, so the baseline with the guard off is the plain repository suite. Repairs of genuine defects are the fix: commits listed in known_findings.json. See DESIGN.md section 0.",
 }
 json.dump(m, open(os.path.join(V, "MANIFEST.json"), "w"), indent=1)
 print("checks:", [c["property_id"] for c in checks], "n/a:", len(na))
